@@ -239,7 +239,9 @@ def run_classes(spec, rec, lib):
         if err in ("SignatureError", "UnknownRoleError", "MetadataVerificationError"):
             rec.count("class_mapping_checks")
             if out.accepted:
-                pass  # soundness is C01/C03/C05's business
+                # "failures are fail-closed": a single-cause rejection must not turn into a normal return
+                rec.violation("fail-open/authentication.%s/expected=%s/observed=return" % (fn, err),
+                              "single-cause rejection (%s) was not raised at all: the call returned normally" % model.why, case)
             elif out.family != err:
                 rec.violation(boundary.mechanism("error-class", "authentication." + fn, err, out),
                               "single-cause rejection (%s) reported as %s instead of %s" % (model.why, out.cls, err), case)
